@@ -181,16 +181,18 @@ def ack_key(msgpack, ns, id, args):
     return ('BINARY_ACK' if binary else 'ACK', ns, id, trepr(args))
 
 
-def trepr(v):
+def trepr(v, _d=0):
     """repr that distinguishes types the way typed_eq does and is stable for
     dicts."""
+    if _d > 60:
+        return '<deep:%d>' % len(repr(v)[:100000])
     if isinstance(v, dict):
-        return '{' + ','.join('%r:%s' % (k, trepr(v[k]))
+        return '{' + ','.join('%r:%s' % (k, trepr(v[k], _d + 1))
                               for k in sorted(v, key=repr)) + '}'
     if isinstance(v, list):
-        return '[' + ','.join(trepr(x) for x in v) + ']'
+        return '[' + ','.join(trepr(x, _d + 1) for x in v) + ']'
     if isinstance(v, tuple):
-        return '(' + ','.join(trepr(x) for x in v) + ')'
+        return '(' + ','.join(trepr(x, _d + 1) for x in v) + ')'
     if isinstance(v, bool):
         return 'bool:%r' % v
     if isinstance(v, float):
